@@ -29,7 +29,17 @@ ASSUMPTIONS = ['gfortran 12 -O0 with -fcheck=bounds,do -ftrapv -ffpe-trap is the
 SHARDS = {'quick': 8, 'thorough': 16}
 BUDGET = {'quick': 80, 'thorough': 1500}
 
-KNOWN_TRIGGER_FLAGS = {}     # generator flags that switch triggers of listed known findings ON (off by default)
+# generator trigger -> signature of the listed known finding it provokes. A trigger is generated only while its finding is
+# NOT listed in known_findings.d/C31.txt (so a fixed + delisted defect is searched for again automatically).
+TRIGGER_SIGS = {
+    'unroll-exit': 'C31:unroll:exit-or-cycle:candidate-does-not-compile:EXIT-or-CYCLE-outside-loop',
+    'unroll-label': 'C31:unroll:do-label:candidate-does-not-compile:Duplicate-statement-label-N-at-(N)-and-(N)',
+    'fusion-diffvar-case': 'C31:fusion:diffvar+idcase-nonlower:wrong-result',
+    'block-local': 'C31:block:local-array:wrong-result',
+    'block-lo': 'C31:block:lo-not-1:wrong-result',
+    'block-out-partial': 'C31:block:conditional-write+intent-out-array:wrong-result',
+    'block-multisub': 'C31:block:same-array-distinct-subscripts:candidate-does-not-compile:Symbol-X-at-(N)-already-has-basic-type-of-INTEGER',
+}
 
 
 # ------------------------------------------------------------------ applying loki
@@ -143,6 +153,28 @@ def _vals(s):
     return list(range(lo, hi + (1 if st > 0 else -1), st))
 
 
+def _designators(obj):
+    if isinstance(obj, list):
+        if len(obj) == 2 and obj[0] == 'd' and isinstance(obj[1], list):
+            yield obj
+        for x in obj:
+            yield from _designators(x)
+    elif isinstance(obj, dict):
+        for x in obj.values():
+            yield from _designators(x)
+
+
+def _deep(obj, fn):
+    r = fn(obj)
+    if r is not None:
+        return r
+    if isinstance(obj, list):
+        return [_deep(x, fn) for x in obj]
+    if isinstance(obj, dict):
+        return {k: _deep(v, fn) for k, v in obj.items()}
+    return obj
+
+
 def features(case, ri):
     kind = case['xf']['kind']
     i0, i1 = case['xf']['regions'][ri]['at']
@@ -177,6 +209,15 @@ def features(case, ri):
             f.add('exit-or-cycle')
         elif s[0] in ('if', 'if1') and kind == 'block':
             f.add('conditional-write')
+    if kind == 'block':
+        subs = {}
+        for d in _designators(stmts):
+            if d[1][0][1]:
+                subs.setdefault(d[1][0][0], set()).add(repr(d[1][0][1]))
+        if any(len(v) > 1 for v in subs.values()):
+            f.add('same-array-distinct-subscripts')
+    if case['layout'].get('idcase', 'lower') != 'lower':
+        f.add('idcase-nonlower')
     # generator-side structural tags that cannot be derived cheaply from the model
     for t in case['xf']['regions'][ri].get('tags', []):
         if t in ('counter-in-bounds', 'diffvar', 'between-stmt', 'temp-crosses', 'pragma-in-if', 'triangular', 'inner-pragma',
@@ -295,6 +336,9 @@ NEUTRALISERS = [
 ]
 
 
+PRIMARY = {'exit-or-cycle', 'do-label', 'diffvar', 'idcase-nonlower', 'local-array', 'lo-not-1', 'same-array-distinct-subscripts'}
+
+
 def neutralise(case, ri, tag):
     for t, fn, drop in NEUTRALISERS:
         if t == tag:
@@ -306,13 +350,64 @@ def neutralise(case, ri, tag):
         c = copy.deepcopy(case)
         c['xf']['opts']['via'] = 'function'
         return c
+    if tag == 'diffvar':
+        c = copy.deepcopy(case)
+        body = _kbody(c)
+        i0, i1 = c['xf']['regions'][ri]['at']
+        ren = {'lj2': 'lj0', 'lj3': 'lj1'}
+        body[i0:i1] = _deep(body[i0:i1], lambda o: ren.get(o) if isinstance(o, str) else None)
+        c['xf']['regions'][ri]['tags'] = [t for t in c['xf']['regions'][ri]['tags'] if t != tag]
+        return c
+    if tag == 'idcase-nonlower':
+        c = copy.deepcopy(case)
+        c['layout']['idcase'] = 'lower'
+        return c
+    if tag == 'intent-out-array':
+        c = copy.deepcopy(case)
+        for d in c['files'][0]['units'][0][1]['routines'][0]['decls'] + c['entry']['args']:
+            if d['name'] == 'zi1':
+                d['intent'] = 'inout'
+        c['xf']['regions'][ri]['tags'] = [t for t in c['xf']['regions'][ri]['tags'] if t != tag]
+        return c
+    if tag in ('same-array-distinct-subscripts', 'local-array', 'intent-in-array', 'lo-not-1'):
+        c = copy.deepcopy(case)
+        body = _kbody(c)
+        i0, i1 = c['xf']['regions'][ri]['at']
+
+        def fn(o):
+            if isinstance(o, list) and len(o) == 2 and o[0] == 'd' and isinstance(o[1], list) and o[1] and isinstance(o[1][0], list):
+                nm, subs = o[1][0][0], o[1][0][1]
+                if tag == 'same-array-distinct-subscripts' and nm == 'zi4' and subs and len(subs) == 2:
+                    return ['d', [[nm, [['i', 1], subs[1]]]]]
+                if tag == 'local-array' and nm == 'la0':
+                    return ['d', [['zi1', subs]]]
+                if tag == 'intent-in-array' and nm == 'zi0' and subs:
+                    return ['i', 1]
+            return None
+        if tag == 'lo-not-1':
+            for s_ in body[i0:i1]:
+                if s_[0] == 'do':
+                    s_[2] = ['i', 1]
+        else:
+            body[i0:i1] = _deep(body[i0:i1], fn)
+        c['xf']['regions'][ri]['tags'] = [t for t in c['xf']['regions'][ri]['tags'] if t != tag]
+        return c
     return None
 
 
 # ------------------------------------------------------------------ oracle
+_POOL = None
+
+
+def _pool():
+    global _POOL
+    if _POOL is None:
+        from concurrent.futures import ThreadPoolExecutor
+        _POOL = ThreadPoolExecutor(max_workers=1)
+    return _POOL
+
+
 def _prepare(case):
-    case['layout']['comments'] = False      # a comment between a pragma and its loop detaches the pragma (documented)
-    case['layout']['blank'] = False
     return case
 
 
@@ -322,13 +417,18 @@ def evaluate(case, ctx, record=True):
     case = _prepare(case)
     rendered = harness.render_case(case)
     driver = make_driver(case)
-    orig = harness.run_original(case, rendered, driver)
-    if not orig.ok:
-        return 'ub', None
+    # the original is built/run in a helper thread while loki transforms (both are subprocess-bound)
+    fut = _pool().submit(harness.run_original, case, rendered, driver)
+    err = None
     try:
         new_text, changed = apply_transformation(case, rendered[0]['text'])
     except Exception as e:  # noqa: loki raised on a generated input
-        return 'reject', e
+        err = e
+    orig = fut.result()
+    if not orig.ok:
+        return 'ub', None
+    if err is not None:
+        return 'reject', err
     sub = Ctx(ctx.prop_id, ctx.tier, ctx.base_seed)
     res = harness.differential(sub, case, [(rendered[0]['name'], new_text)], 'X', original=orig, driver=driver)
     vec = orig.out.split('vector ')
@@ -336,7 +436,11 @@ def evaluate(case, ctx, record=True):
     info = {'changed': changed, 'varied': varied, 'rendered': rendered, 'new_text': new_text}
     if res == 'fail':
         sig, ent = next(iter(sub.failures.items()))
-        info['err'] = sig.split(':', 1)[1]
+        err = sig.split(':', 1)[1]
+        if err in ('candidate-runtime-error', 'output-differs'):
+            err = 'wrong-result'       # one root cause (e.g. an uninitialised variable) shows as either
+        err = re.sub(r'(EXIT|CYCLE)-statement-at-\(N\)-is-not-within-a-(construct|loop)', 'EXIT-or-CYCLE-outside-loop', err)
+        info['err'] = err
         info['detail'] = ent['detail']
         return 'fail', info
     return 'ok', info
@@ -369,7 +473,11 @@ def classify(case, ctx, info):
                 break
     feats = features(cur, ri)
     necessary = set()
-    for tag in sorted(feats):
+    # features of listed/known defects first: if removing one of them cures the failure the case is attributed to it
+    order = sorted(feats & PRIMARY) + sorted(feats - PRIMARY)
+    for tag in order:
+        if tag not in PRIMARY and necessary & PRIMARY:
+            break
         c = neutralise(cur, ri, tag)
         if c is None:
             continue
@@ -382,16 +490,23 @@ def classify(case, ctx, info):
             necessary.add(tag)   # inconclusive (UB / reject / budget): keep
     remaining = features(cur, ri)
     structural = sorted(t for t in remaining if neutralise(cur, ri, t) is None)
-    if necessary:
+    primary = necessary & PRIMARY
+    if primary:
+        tags = sorted(primary)      # attributable to the feature of a (potentially listed) known defect
+    elif necessary:
         tags = sorted(necessary)
     else:
         tags = structural or ['plain']
+    cur = copy.deepcopy(cur)
+    cur['xf']['sig_tags'] = tags
     return cur, f'C31:{kind}:{"+".join(tags)}:{info["err"]}'
 
 
 def check_case(case, ctx):
     xf = case['xf']
     kind = xf['kind']
+    for t in xf.get('avoided', []):
+        ctx.exclude(f'trigger-of-listed-known-finding:{t}')
     st, info = evaluate(case, ctx)
     tagset = set()
     for ri in range(len(xf['regions'])):
@@ -413,21 +528,19 @@ def check_case(case, ctx):
     if len(ctx.samples) < 3 and nontrivial and ctx.evaluations % 3 == 0:
         ctx.sample({'kind': kind, 'source': info['rendered'][0]['text'][-1800:], 'transformed': info['new_text'][-1800:]})
     if st == 'fail':
-        small, sig = classify(case, ctx, info)
+        if xf.get('sig_tags'):
+            # an already reduced case (stored replay): the oracle above decided pass/fail, the name is the stored reduction
+            small, sig = case, f'C31:{kind}:{"+".join(xf["sig_tags"])}:{info["err"]}'
+        else:
+            small, sig = classify(case, ctx, info)
         ctx.fail(sig, small, info['detail'])
 
 
 def run_shard(ctx):
-    flags = dict(KNOWN_TRIGGER_FLAGS)
-    kinds = gen_loops.KINDS
-    # every shard explores all kinds; a fixed share per kind keeps the histogram flat
-    per = ctx.scale(336, 6000) // len(kinds)
-    for kind in kinds:
-        if ctx.out_of_time():
-            break
-        ctx.given(gen_loops.cases(kinds=[kind], flags=flags), check_case, max(1, per), label=kind)
-    for reason in ('unroll:exit-or-cycle-in-unrolled-loop', 'block:local-array', 'block:lower-bound-not-1'):
-        pass
+    flags = {t: (sig not in ctx.known_sigs) for t, sig in TRIGGER_SIGS.items()}
+    k = ctx.shard % len(gen_loops.KINDS)
+    kinds = gen_loops.KINDS[k:] + gen_loops.KINDS[:k]      # same draws -> different kinds on different shards
+    ctx.given(gen_loops.cases(kinds=kinds, flags=flags), check_case, ctx.scale(240, 6000))
 
 
 def replay(case, ctx):
